@@ -104,7 +104,7 @@ def replay(case, stats):
 
 def run(ctx):
     q = ctx.quick
-    ctx.units("docstring-documents", unit_doc, [{"n": 500 if q else 7000, "seed": ctx.seed, "shard": i} for i in range(4 if q else 16)], procs=16)
+    ctx.units("docstring-documents", unit_doc, [{"n": 750 if q else 7000, "seed": ctx.seed, "shard": i} for i in range(8 if q else 16)], procs=16)
     ctx.rule = ("documents whose background / scenario / outline steps carry doc strings: both delimiters, any indentation relation between delimiter and "
                 "content (spaces, tabs, exotic blanks), media type none/word/with blanks/starting with a quote, content lines drawn from arbitrary text and every "
                 "kind of Gherkin-looking line (keywords, tags with blanks, comments, language headers, table rows, blank lines, the other delimiter, escaped and "
